@@ -18,6 +18,7 @@ def main(root):
     NoneType = type(None)
     K = mod.K
     A, B, C, D, E, Keep, Inner = kinds.A, kinds.B, kinds.C, kinds.D, kinds.E, kinds.Keep, kinds.Outer.Inner
+    S, M = kinds.S, kinds.M
     inner = mod.f_outer()
     T = CallTrace
     pool = {
@@ -61,6 +62,26 @@ def main(root):
         "local": T(inner, {"x": int}, int),
         "params": T(mod.f_params, {"a": int, "b": str}, int),
         "params_pruned": T(mod.f_params, {"a": int}, int),
+        # a name now bound to a non-type, nested inside generics
+        "nt_opt_fn": T(mod.f_nontype, {"a": Optional[E]}, int),
+        "nt_list_str": T(mod.f_nontype, {"a": List[S]}, int),
+        "nt_dict_mod": T(mod.f_nontype, {"a": int}, Dict[str, M]),
+        "nt_opt_int": T(mod.f_nontype, {"a": Optional[D]}, NoneType),
+        "nt_str": T(mod.f_nontype, {"a": S}, int),
+        "nt_mod_ret": T(mod.f_nontype, {"a": str}, Tuple[int, List[M]]),
+        "nt_yield_list": T(mod.f_gen, {"n": int}, NoneType, List[E]),
+        # two stale facts in one row
+        "params_argcls": T(mod.f_params, {"a": int, "b": A}, int),
+        "params_nontype": T(mod.f_params, {"a": str, "b": D}, float),
+        "params_nested": T(mod.f_params, {"a": str, "b": List[A]}, str),
+        "yieldcls_list": T(mod.f_yieldcls, {"a": str}, List[int], List[C]),
+        "yield_ret": T(mod.f_yieldcls, {"a": int}, B, C),
+        "removed_argcls": T(mod.f_removed, {"a": A}, int),
+        "cls_nontype": T(mod.f_class, {"a": D}, int),
+        "arg_ret": T(mod.f_argcls, {"a": A, "b": int}, B),
+        "propset_ret": T(K.prop_set.fget, {"self": K}, B),
+        "nonfunc_yield": T(mod.f_nonfunc, {"a": int}, int, C),
+        "gonemod_nontype": T(mod.f_argcls, {"a": gone.G, "b": D}, float),
         # other modules
         "gone_g": T(gone.g, {"x": int}, int),
         "gone_g2": T(gone.g, {"x": str}, gone.G),
